@@ -27,6 +27,7 @@ E2Lits ==
     <<"ne", X, Y>>, <<"ne", X, N(2)>>,
     <<"bi", ":match_pair", <<Z, X, Y>>>>, <<"bi", ":match_cons", <<Z, X, T>>>>,
     <<"bi", ":list:member", <<X, Z>>>> }
+NoTransforms == {<<"none">>}
 E2Transforms == { <<"none">>, <<"let", <<<<"V", Ap("fn:plus", <<X, N(1)>>)>>>>>>,
                   <<"let", <<<<"T", Ap("fn:pair", <<X, X>>)>>>>>> }
 E2Edbs ==
@@ -39,4 +40,5 @@ UsesArith(r) == \/ \E i \in DOMAIN r.b : r.b[i][1] = "eq" /\ (IsAp(r.b[i][2]) \/
                 \/ r.t[1] = "let"
 HasIdbBody(r) == \E i \in DOMAIN r.b : r.b[i][1] = "pos" /\ r.b[i][2].p \in {"p", "q", "r"}
 KeepE2(r) == ~(UsesArith(r) /\ HasIdbBody(r))
+KeepE2Safe(r) == KeepE2(r) /\ Safe(r)
 =============================================================================
